@@ -87,6 +87,7 @@ type asyncObs struct {
 	counter   int64
 	stopped   bool
 	returned  map[string]bool
+	atStop    [][3]int64           // per Stop call, at the moment it returned: items accepted so far (submitted + empty writes), items appender 0 holds, discard counter
 	levels    map[string]log.Level // level every event was submitted at
 	ranges    []log.LevelRange     // range of every appender reference
 	err       string
@@ -287,6 +288,7 @@ func (c asyncCfg) run(o *asyncObs) {
 		zzvrt.WaitQuiescent()
 	}
 	l.Stop()
+	o.atStop = append(o.atStop, [3]int64{int64(len(o.submitted) + o.empty), int64(len(o.apps[0].items)), l.GetDiscardCounter()})
 	if c.stopTwice {
 		for _, a := range o.apps {
 			a.Stop()
@@ -322,6 +324,7 @@ func (c asyncCfg) run(o *asyncObs) {
 			zzvrt.WaitQuiescent()
 		}
 		l.Stop()
+		o.atStop = append(o.atStop, [3]int64{int64(len(o.submitted) + o.empty), int64(len(o.apps[0].items)), l.GetDiscardCounter()})
 	}
 	o.stopped = true
 	o.counter = l.GetDiscardCounter()
@@ -498,6 +501,15 @@ func asyncCheck(prop string, c asyncCfg, o *asyncObs, x *zzvrt.Exec) (string, []
 				if strings.HasPrefix(id, "W:") && seen[id] == 0 && o.counter == 0 {
 					add("C12", "write-missing", fmt.Sprintf("raw write %s never reached appender %d (ref level %q)", id, ai, c.refLevel))
 				}
+			}
+		}
+	}
+	// C05: AT THE MOMENT a Stop returned (not merely by the time everything has come to rest), what had been accepted
+	// until then and not discarded was at the appender - in every life of the logger object
+	if (c.refLevel == "" || c.refLevel == "INFO") && len(c.refLevels) == 0 {
+		for k, st := range o.atStop {
+			if st[0]-st[2] > st[1] {
+				add("C05", "stop-flush", fmt.Sprintf("Stop #%d returned while appender 0 held %d of the %d items accepted until then (%d discarded)", k+1, st[1], st[0]-st[2], st[2]))
 			}
 		}
 	}
